@@ -40,3 +40,21 @@ func (h *HttpServer) VerifC15CacheKeys() []string {
 
 // VerifC15TokenTTL returns the configured token TTL.
 func (h *HttpServer) VerifC15TokenTTL() time.Duration { return h.tokenTTL }
+
+// VerifC15SealCall seals a call token with caller-chosen contents including
+// the declared input schema of a dynamic exchange stream. Does not touch the
+// call-state cache.
+func (h *HttpServer) VerifC15SealCall(createdAt int64, callID string, schemaIPC, inputSchemaIPC []byte, streamID string, auth *AuthContext) ([]byte, error) {
+	data := callTokenData{CreatedAt: createdAt, CallID: callID, SchemaIPC: schemaIPC, StreamID: streamID, InputSchemaIPC: inputSchemaIPC}
+	return h.sealToken(callTokenVersion, &data, callTokenAad(auth))
+}
+
+// VerifC15PeekCall opens a call token for auth without the age check and
+// returns all of its contents.
+func (h *HttpServer) VerifC15PeekCall(token []byte, auth *AuthContext) (createdAt int64, callID string, schemaIPC, inputSchemaIPC []byte, streamID string, err error) {
+	var data callTokenData
+	if err = h.openToken(callTokenVersion, token, callTokenAad(auth), &data); err != nil {
+		return 0, "", nil, nil, "", err
+	}
+	return data.CreatedAt, data.CallID, data.SchemaIPC, data.InputSchemaIPC, data.StreamID, nil
+}
